@@ -40,31 +40,26 @@ def check_C12(tier):
     design = kit.run_design([("MCDilithiumMath", "DilMath_residues_" + sfx, 16), ("MCDilithiumMath", "DilMath_reduce32_" + sfx, 16),
                              ("MCDilithiumMath", "DilMath_hint_" + sfx, 16), ("MCDilithiumMath", "DilMath_lemma_" + sfx, 16)])
     apal = apalache_montgomery()
+    apal32 = apalache_reduce32()
     tr, st, p = kit.drive("dildrive", "C12", ["-prop", "C12", "-tier", tier])
     v = kit.judge("C12", "TraceDilMath", "TraceKit", tr, expect_events=st.get("events"), shards=8)
     return kit.finish("C12", tier, t0, design, [v], exhaustive=True,
-        extra_cov={"apalache_montgomery": apal,
+        extra_cov={"apalache_montgomery": apal, "apalache_reduce32": apal32,
                    "rule": "complete input/output tables of decompose, power2round, useHint(.,0/1), cAddQ, makeHint (16 high parts), polyChkNorm (5 bounds) and reduce32 (all 2^32-2^22 operands) computed from the real functions and compressed into affine segments, every segment decided at its ends and at every breakpoint of the definition; Montgomery and NTT on extreme and seeded operands; zetas table"},
         assumptions=["montgomeryReduce is proved for the TLA+ transcription over the whole 2^55 operand range (Apalache) and sampled on the code",
+                     "reduce32's TLA+ transcription is proved over the whole int32 domain by Apalache and enumerated by TLC on a stride (thorough: 257, quick: 8191) plus block edges; the code's complete 2^32 table is validated against it segment by segment",
                      "NTT correctness is checked on structured and seeded polynomials plus the zetas table, not proved for all polynomials",
                      "reduce32: the reference comment's upper bound 6283007 is attained+1 (6283008) at a = 2^31-2^22-1; the specification uses 6283008"])
 
+def apalache(module, inv="Inv", expect_error=False, domain=""):
+    return kit.apalache(module, inv=inv, expect_error=expect_error, domain=domain)
+
 def apalache_montgomery():
-    """Montgomery.tla: symbolic check over the whole operand range (TLC cannot: 64-bit operands)."""
-    import shutil, tempfile, subprocess
-    d = tempfile.mkdtemp(prefix="apa-", dir=scratch())
-    shutil.copy(os.path.join(SPEC, "Montgomery.tla"), d)
-    t0 = time.time()
-    try:
-        p = subprocess.run(["apalache-mc", "check", "--init=Init", "--next=Next", "--inv=Inv", "--length=0", "Montgomery.tla"],
-                           cwd=d, capture_output=True, text=True, timeout=600)
-    except subprocess.TimeoutExpired:
-        raise Infra("apalache timeout on Montgomery.tla")
-    out = p.stdout + p.stderr
-    if "The outcome is: NoError" not in out:
-        raise Infra("Apalache did not prove Montgomery.tla (a property of the specification, not of /repo):\n" + out[-2000:])
-    log("[apalache] Montgomery.tla: NoError (%.1fs)" % (time.time() - t0))
-    return {"outcome": "NoError", "wall_s": round(time.time() - t0, 1), "domain": "-2^31*q <= a < 2^31*q"}
+    return apalache("Montgomery", domain="-2^31*q <= a < 2^31*q")
+
+def apalache_reduce32():
+    return {"proved": apalache("Reduce32", domain="-2^31 <= a <= 2^31-2^22-1"),
+            "control": apalache("Reduce32", inv="CommentBound", expect_error=True)}
 
 def check_C13(tier):
     t0 = time.time()
@@ -76,5 +71,5 @@ def check_C13(tier):
     v = kit.judge("C13", "TraceDilPack", "TraceDilPack", tr, expect_events=st.get("events"), shards=16)
     return kit.finish("C13", tier, t0, design, [v],
         extra_cov={"rule": "per packer: extremes and one-hot values in every lane over four backgrounds, every coefficient position with each extreme, random polynomials, arbitrary byte strings re-packed; hint vectors of weight 0,1,2,74,75,76,80 in four shapes; genuine / z-randomised / hint-mutated signatures through unpackSig and packSig; key layouts"},
-        assumptions=["z-lane completeness (2^20 values per lane) is in the thorough design config; positions are covered by loop uniformity plus every position with both extremes",
+        assumptions=["the 20-bit z lane is enumerated on a stride (thorough: every 7th value plus the edges, both neighbour backgrounds; quick: coarser), the narrower packers completely; positions are covered by loop uniformity plus every position with both extremes",
                      "whole-signature re-encoding is compared on SHA-256 digests"])
